@@ -162,7 +162,9 @@ theorem entriesOf_filler (n : Nat) : entriesOf (fillerEvs n) = [] := by
   | 0 => rfl
   | 1 => rfl
   | 2 => rfl
-  | _ + 3 => rfl
+  | 3 => rfl
+  | 4 => rfl
+  | _ + 5 => rfl
 
 theorem entriesOf_docBody (es : List DocEntry) :
     entriesOf (es.flatMap (fun e => Ev.entry e.toEntry :: fillerEvs e.filler)) = es.map DocEntry.toEntry := by
@@ -189,7 +191,9 @@ theorem docTrace_clean (d : Doc) : Clean (docTrace d) := by
       | 0 => decide
       | 1 => decide
       | 2 => decide
-      | _ + 3 => intro ev h; cases h
+      | 3 => intro ev h; cases h
+      | 4 => decide
+      | _ + 5 => intro ev h; cases h
     have hpro : ∀ n, ∀ ev ∈ prologEvs n, isErrEv ev = false := by
       intro n; match n with
       | 0 => intro ev h; cases h
